@@ -224,7 +224,9 @@ impl RK23 {
             }
 
             // Stage 4/1: derivative at new point, also used as k1 if accepted.
-            f.ode(x + h, &yt, &mut k4);
+            // The last step ends at xend itself: x + (xend - x) can miss it by a rounding error
+            let xph = if last { xend } else { x + h };
+            f.ode(xph, &yt, &mut k4);
 
             evals.ode += 3;
 
@@ -254,8 +256,7 @@ impl RK23 {
                 ye.copy_from_slice(&y);
                 y.copy_from_slice(&yt);
                 xold = x;
-                // The last step lands on xend itself: x + (xend - x) can miss it by a rounding error
-                x = if last { xend } else { x + h };
+                x = xph;
 
                 // An output point requested by the callback (XOut) needs the interpolant of this step too
                 let event = xout.map_or(false, |xo| xo <= x);
